@@ -6,13 +6,15 @@
      ++ [ran_0; chg_0; ran_1; chg_1; ran_2; chg_2; ran_4; chg_4; ran_5; chg_5]   per subtable kind
      ++ [cases whose glyph string differs from the plain cmap mapping] *)
 From Coq Require Import List NArith ZArith Bool.
-From RB Require Import Base.Result Model.Buffer Model.Font Model.Morx Model.MorxPipe.
+From RB Require Import Base.Result Model.Buffer Model.Font Model.Morx Model.MorxFeat Model.MorxPipe.
 Import ListNotations.
 Local Open Scope N_scope.
 
 (* what the implementation did: panic, the (gid, cluster) list, or for long outputs (length, digest) *)
 Inductive expect := EPanic | EFull (l : list (N * N)) | EDigest (len h : N).
-Record mcase := mkCase { c_dir : dir; c_level : N; c_text : list (N * N); c_out : expect }.
+Record mcase := mkCase { c_dir : dir; c_level : N; c_text : list (N * N); c_feats : list ufeature; c_out : expect }.
+(* a generated font: the `font` term and its `feat` table (not a field of `font`) *)
+Definition gfont := (font * option feat_table)%type.
 
 (* mirrors harness/src/c17.rs `digest` *)
 Definition out_digest (l : list (N * N)) : N :=
@@ -26,8 +28,9 @@ Fixpoint pairs_eqb (a b : list (N * N)) : bool :=
   end.
 
 (* 0 agree, 1 disagree, 2 outside domain (table), 3 outside domain (alloc), 4 both fail (model Error, impl panic) *)
-Definition case_code (f : font) (c : mcase) : N * list event * bool :=
-  match shape_morx f (c_dir c) (c_level c) (c_text c) with
+Definition case_code (gf : gfont) (c : mcase) : N * list event * bool :=
+  let f := fst gf in
+  match shape_morx_feat f (snd gf) (c_feats c) (c_dir c) (c_level c) (c_text c) with
   | Ok sh =>
       let plain := map (fun '(cp, _) => match cmap_lookup f cp with Some g => g | None => 0 end) (c_text c) in
       let moved := negb (nlist_eqb (map fst (sh_glyphs sh)) (if dir_backward (c_dir c) then rev plain else plain)) in
@@ -58,7 +61,7 @@ Definition add_events (ks : list N) (es : list event) : list N :=
   fold_left (fun (ks : list N) (e : event) =>
                let ks1 := bump ks (kind_slot (fst e)) in if snd e then bump ks1 (S (kind_slot (fst e))) else ks1) es ks.
 
-Definition step (f : font) (a : acc) (c : mcase) : acc :=
+Definition step (f : gfont) (a : acc) (c : mcase) : acc :=
   let '(code, es, moved) := case_code f c in
   let fail := code =? 1 in
   let slot := if code =? 0 then 1%nat else if code =? 2 then 2%nat else if code =? 3 then 3%nat
@@ -72,15 +75,15 @@ Definition step (f : font) (a : acc) (c : mcase) : acc :=
 
 Definition acc0 : acc := mkAcc 0 [] O [0; 0; 0; 0; 0; 0] [0; 0; 0; 0; 0; 0; 0; 0; 0; 0] 0.
 
-Definition run_font (a : acc) (fc : font * list mcase) : acc := fold_left (step (fst fc)) (snd fc) a.
+Definition run_font (a : acc) (fc : gfont * list mcase) : acc := fold_left (step (fst fc)) (snd fc) a.
 
-Definition summary (l : list (font * list mcase)) : list N :=
+Definition summary (l : list (gfont * list mcase)) : list N :=
   let a := fold_left run_font l acc0 in
   (N.of_nat (length (a_fail a)) :: rev (a_fail a)) ++ firstn 5 (a_counts a) ++ a_kinds a ++ [a_moved a].
 
 (* single-case diagnosis for replays: model output (gid, cluster flattened), ambiguity flags *)
-Definition diagnose (f : font) (c : mcase) : list N :=
-  match shape_morx f (c_dir c) (c_level c) (c_text c) with
+Definition diagnose (gf : gfont) (c : mcase) : list N :=
+  match shape_morx_feat (fst gf) (snd gf) (c_feats c) (c_dir c) (c_level c) (c_text c) with
   | Ok sh => 1 :: sh_amb sh :: concat (map (fun '(g, cl) => [g; cl]) (sh_glyphs sh))
   | Error e => [0; N.of_nat (err_code e)]
   end.
